@@ -320,6 +320,19 @@ fn fam_small(ctx: &CaseCtx, cov: &mut Cov) -> CaseOut {
         }
     }
     cov.name("inputs_with_all_single_and_pair_cuts", 1);
+    // thorough: all triples of cuts for very short inputs
+    if ctx.tier == Tier::Thorough && n <= 26 && ok {
+        'tri: for a in 0..=n {
+            for b in a..=n {
+                for c in b..=n {
+                    if !compare(&mut out, cov, ctx, &inp, &os, &[a, b, c], &d, "triple") {
+                        break 'tri;
+                    }
+                }
+            }
+        }
+        cov.name("inputs_with_all_triple_cuts", 1);
+    }
     out.nontrivial.push(case_hash(&[&inp.file, format!("{:?}", inp.options).as_bytes(), b"small"]));
     out.sample = Some(J::obj().set("input", J::s(inp.desc.as_str())).set("len", J::i(n)).set("oneshot", J::s(os.verdict.short())).set("chunkings", J::s("all single cuts and all pairs")));
     out
@@ -469,7 +482,7 @@ pub fn monitor(tier: Tier) -> Monitor {
     Monitor {
         id: "C05",
         level: "exploration",
-        rule: "cases = (input bytes, decode option, division into write calls): inputs of 8 kinds (C08 table cells incl. wrong sizes / trailing / truncated under all 5 option shapes, bit-flipped, spliced, liblzma streams, dumb-encoder streams, garbage behind a valid header, expensive-symbol programs, header-only prefixes); chunkings: ALL single cuts and ALL pairs of cuts for inputs <= 64 bytes, every single cut for inputs <= 700 bytes (thorough: 4 KiB), 8 pattern families (piece sizes 1..24, sizes around the 20-byte look-ahead, random, empty writes, flush, write_all, symbol boundary +-1); each history compared with the one-shot decoder on the concatenation (verdict; bytes on success); evaluations = stream histories run; distinct by hash of (input, option, cuts) resp. one per exhaustively cut input",
+        rule: "cases = (input bytes, decode option, division into write calls): inputs of 8 kinds (C08 table cells incl. wrong sizes / trailing / truncated under all 5 option shapes, bit-flipped, spliced, liblzma streams, dumb-encoder streams, garbage behind a valid header, expensive-symbol programs, header-only prefixes); chunkings: ALL single cuts and ALL pairs of cuts for inputs <= 64 bytes (thorough: also all triples for inputs <= 26 bytes), every single cut for inputs <= 700 bytes (thorough: 4 KiB), 8 pattern families (piece sizes 1..24, sizes around the 20-byte look-ahead, random, empty writes, flush, write_all, symbol boundary +-1); each history compared with the one-shot decoder on the concatenation (verdict; bytes on success); evaluations = stream histories run; distinct by hash of (input, option, cuts) resp. one per exhaustively cut input",
         assumptions: vec![
             "oracle is lzma-rs' own one-shot decoder (the property is an equivalence); that decoder is pinned by C01/C08".into(),
             "error text and the call at which an error surfaces may differ; only the final verdict and, on success, the bytes are compared".into(),
